@@ -1093,6 +1093,98 @@ fn run_history(ctx: &Ctx, idx: usize, ops: &[Op], qs: &[Query], qlen: usize, out
     Some(HistOut { key })
 }
 
+// ------------------------------------------------------------------ C05: a collection of more than 2^16 shards
+
+/// One manager over 65536 + 6 shards registered in a fixed order.  Shards 0..3 each hold two xorbs
+/// (a 3-, 2- or 4-chunk one followed by one holding the chunks c_k, d_k); shards 3..65536 are one-chunk
+/// fillers; shards 65536..65539 hold a xorb in which c_k, d_k sit at the same entry position as in shard k,
+/// and shards 65539..65542 a few more stored chunks.  The manager's per-chunk index records the shard
+/// position in 16 bits; every query is judged for truthfulness against the model of everything registered.
+fn run_many_shards(ctx: &Ctx, out: &mut Partial) {
+    let prop = "C05";
+    let desc = "65542 shards in one collection".to_string();
+    let replay = json!({"kind": "many-shards"});
+    let m = &ctx.m;
+    let dir = ctx.fresh_dir("many");
+    // registered shards have to live under the manager's directory (a sub-directory keeps them out of its own scan)
+    let store = dir.join("session").join("store");
+    std::fs::create_dir_all(&store).expect("store dir");
+    let ch = |tag: u64, j: u64| -> (RH, u32) { (hw([mix(0x3A00_0000_0000 + tag * 1000 + j), tag, j, 0x3A17]), 700 + (tag * 37 + j * 11) as u32 % 900) };
+    let xh = |tag: u64| -> RH { hw([mix(0x3B00_0000_0000 + tag), tag, 0xCA5, 0x3A17]) };
+    let mut shards: Vec<Vec<Xorb>> = vec![];
+    let lead = [3u64, 2, 4];
+    for k in 0..3u64 {
+        // shard k: X1_k = `lead[k]` chunks, X2_k = [c_k, d_k]
+        let x1 = Xorb { hash: xh(10 + k), chunks: (0..lead[k as usize]).map(|j| ch(10 + k, j)).collect() };
+        let x2 = Xorb { hash: xh(20 + k), chunks: vec![ch(30 + k, 0), ch(30 + k, 1)] };
+        shards.push(vec![x1, x2]);
+    }
+    for f in 3..65536u64 {
+        shards.push(vec![Xorb { hash: xh(1_000_000 + f), chunks: vec![ch(1_000_000 + f, 0)] }]);
+    }
+    for k in 0..3u64 {
+        // shard 65536 + k: Y_k = lead[k] + 1 own chunks, then c_k, d_k, then one more: c_k is entry #(lead[k] + 2)
+        // counted over xorb headers and chunk entries, exactly where shard k has it
+        let mut chunks: Vec<(RH, u32)> = (0..lead[k as usize] + 1).map(|j| ch(40 + k, j)).collect();
+        chunks.push(ch(30 + k, 0));
+        chunks.push(ch(30 + k, 1));
+        chunks.push(ch(40 + k, 99));
+        shards.push(vec![Xorb { hash: xh(40 + k), chunks }]);
+    }
+    for k in 0..3u64 {
+        shards.push(vec![Xorb { hash: xh(50 + k), chunks: (0..3).map(|j| ch(50 + k, j)).collect() }]);
+    }
+    let mut w = World::default();
+    let mut files = vec![];
+    let built = step(prop, "write-many-shards", &desc, &replay, out, || {
+        for xs in &shards {
+            let order: Vec<usize> = (0..xs.len()).collect();
+            let p = mem_shard(xs, &order).write_to_directory(&store).map_err(es)?;
+            files.push(MDBShardFile::load_from_file(&p).map_err(es)?);
+        }
+        Ok(())
+    });
+    if built.is_none() {
+        rm(&dir);
+        return;
+    }
+    for xs in &shards {
+        for x in xs {
+            w.add(x, &ZERO, m);
+        }
+    }
+    let mgr = step(prop, "manager-open", &desc, &replay, out, || {
+        let mgr = ctx.rt.block_on(ShardFileManager::new_in_session_directory(&dir.join("session"))).map_err(es)?;
+        for f in &files {
+            ctx.rt.block_on(mgr.register_shards(&[f.clone()])).map_err(es)?;
+        }
+        Ok(mgr)
+    });
+    if let Some(mgr) = mgr {
+        // queries: every window of length 1..=3 of every xorb of the first and last shards, the pairs
+        // (c_k, d_k), a few fillers and absent hashes
+        let mut qs: Vec<Query> = vec![];
+        let interesting: Vec<&Vec<Xorb>> = shards[..4].iter().chain(shards[65534..].iter()).collect();
+        for xs in interesting {
+            for x in xs {
+                for a in 0..x.chunks.len() {
+                    for b in a + 1..=(a + 3).min(x.chunks.len()) {
+                        qs.push(mk_query(format!("{}[{a},{b})", &hx(&x.hash)[..8]), x.chunks[a..b].iter().map(|c| c.0).collect()));
+                    }
+                }
+            }
+        }
+        for k in 0..3u64 {
+            qs.push(mk_query(format!("c{k}d{k}+absent"), vec![ch(30 + k, 0).0, ch(30 + k, 1).0, ch(999, k).0]));
+            qs.push(mk_query(format!("absent{k}"), vec![ch(998, k).0]));
+        }
+        out.count("many_shards_registered", shards.len() as u64);
+        out.count("many_shards_queries", qs.len() as u64);
+        eval("C05/", "manager-many-shards", &desc, &w, &qs, m, &replay, out, |q| guarded(|| ctx.rt.block_on(mgr.chunk_hash_dedup_query(&q.mh)).map_err(es)));
+    }
+    rm(&dir);
+}
+
 // ------------------------------------------------------------------ parallel driver
 
 const THREADS: usize = 16;
@@ -1409,6 +1501,13 @@ fn main_c05(args: &Args) -> ! {
         layer_sizes.push(next.len());
         frontier = next;
     }
+    // 4. one collection of more than 2^16 shards (the per-chunk index stores the shard position in 16 bits)
+    {
+        let ctx = Ctx::new(&scratch.path().join("many"), "C05", None);
+        let mut p = Partial::default();
+        run_many_shards(&ctx, &mut p);
+        all.merge_keep_all(p);
+    }
     run.set("new_states_per_depth", json!(layer_sizes));
     run.set("history_depth_bound", json!(depth));
     run.set("query_length_bound", json!(qlen));
@@ -1492,6 +1591,7 @@ fn replay_c05(ctx: &Ctx, r: &Value, out: &mut Partial) {
             run_large(ctx, idx, &s, out)
         },
         Some("kc") => run_kc(ctx, idx, &json_xorbs(&r["xorbs"]), &kc_queries(4), out),
+        Some("many-shards") => run_many_shards(ctx, out),
         Some("history") => {
             let ops: Vec<Op> = r["ops"]
                 .as_array()
